@@ -581,6 +581,49 @@ pub fn gen(tier: &str, seed: u64) -> Vec<String> {
         }
     }
 
+    // 3c. the three any-key inputs of deflayermap (`_` = the other defsrc keys, `__` = the keys
+    //     outside defsrc, `___` = both; parser/src/cfg/mod.rs parse_layers l.3448-3510): every
+    //     sequence of one or two of them and every repetition of one of them around another,
+    //     under each process-unmapped-keys setting, with and without an ordinary entry in front.
+    //     The random family below reaches the "used twice" / "not both" / "needs
+    //     process-unmapped-keys" answers only by chance (`__ ... __` not at all in the quick tier).
+    {
+        let any = ["_", "__", "___"];
+        let mut seqs: Vec<Vec<&str>> = vec![];
+        for a in any {
+            seqs.push(vec![a]);
+            for b in any {
+                seqs.push(vec![a, b]);
+                seqs.push(vec![a, b, a]);
+            }
+        }
+        // three names of three different keys
+        let (k1, c1) = r.pick(&named).clone();
+        let (mut k2, mut c2) = r.pick(&named).clone();
+        while c2 == c1 {
+            (k2, c2) = r.pick(&named).clone();
+        }
+        let (mut k3, mut c3) = r.pick(&named).clone();
+        while c3 == c1 || c3 == c2 {
+            (k3, c3) = r.pick(&named).clone();
+        }
+        for puk in [PukT::No, PukT::Yes, PukT::Exc(vec![k3.clone()])] {
+            for q in &seqs {
+                for with_key in [false, true] {
+                    let mut ps: Vec<(String, String)> = vec![];
+                    if with_key {
+                        ps.push((k1.clone(), "XX".to_string()));
+                    }
+                    for (i, a) in q.iter().enumerate() {
+                        ps.push((a.to_string(), if i % 2 == 0 { "XX".to_string() } else { "_".to_string() }));
+                    }
+                    let cfg = CfgT { loc: vec![], puk: puk.clone(), src: vec![k1.clone(), k2.clone()], layers: vec![LayerT::Map(ps)] };
+                    out.push(format!("C11 mapped {}", cfg_tokens(&cfg)));
+                }
+            }
+        }
+    }
+
     // 4. random configurations: defsrc subsets, deflayermap inputs, exception lists
     let n_cfg = if thorough { 25000 } else { 700 };
     for _ in 0..n_cfg {
